@@ -444,6 +444,9 @@ Definition config_detuning_map (v : senv) (mapid dmm : Z) : QM unit :=
       modify (fun s => set_inising s true) ;;;
       s <- get ;;
       let name := dmm + dmm_count s dmm in
+      (* generated names are fresh in Python by construction ("dmm_" names are
+         reserved); the model states it as an explicit, never-failing guard *)
+      guard (match find_chan name (q_sched s) with Some _ => true | None => false end) EKey ;;;
       modify (fun s => set_sched s (q_sched s ++ [new_chan name dmm cfg (Some mapid)])) ;;;
       ensure_basis v 0 ;;;
       onsched (append_slot name {| s_kind := KTarget; s_ti := -1; s_tf := 0;
